@@ -266,17 +266,23 @@ def _worker(cases_path, out_path, work):
     return deaths
 
 
-def run_cases(cases, tag="c", jobs=None):
-    """cases: list of dicts with id + srcs. Returns dict id -> result."""
+def run_cases(cases, tag="c", jobs=None, fresh=False):
+    """cases: list of dicts with id + srcs. Returns dict id -> result.
+    fresh=True: every case gets a driver process of its own (nothing a previous case left in process-wide state
+    can reach it); otherwise the cases are spread over `jobs` long-lived driver processes."""
     jobs = jobs or NPROC
     work = os.path.join(BUILD, "work")
     os.makedirs(work, exist_ok=True)
-    shards = [[] for _ in range(jobs)]
-    for i, c in enumerate(cases):
-        shards[i % jobs].append(c)
-    procs = []
     import threading
+    if fresh:
+        shards = [[c] for c in cases]
+    else:
+        shards = [[] for _ in range(jobs)]
+        for i, c in enumerate(cases):
+            shards[i % jobs].append(c)
+    procs = []
     errs = []
+    gate = threading.Semaphore(jobs)
 
     def go(k, sh_cases):
         cp = os.path.join(work, "%s-%d-%d.in.jsonl" % (tag, os.getpid(), k))
@@ -284,10 +290,11 @@ def run_cases(cases, tag="c", jobs=None):
         with open(cp, "w") as f:
             for c in sh_cases:
                 f.write(json.dumps(c) + "\n")
-        try:
-            _worker(cp, op, work)
-        except Exception as e:  # noqa
-            errs.append(e)
+        with gate:
+            try:
+                _worker(cp, op, work)
+            except Exception as e:  # noqa
+                errs.append(e)
         procs.append((cp, op))
 
     ths = [threading.Thread(target=go, args=(k, s)) for k, s in enumerate(shards) if s]
